@@ -204,22 +204,27 @@ def endChunk (w : World c) : World c :=
     let w := { w with splits := some sp }
     wake (if sp.length > w.highChunks then pauseReading w else w)
 
-/-- `payload.feed_data(chunk)` where payload is the `DeflateBuffer` (compressed) or the
-`StreamReader` itself; the return value lands in `more` -/
-def payFeed (w : World c) (chunk : Bytes) : World c :=
-  let w := { w with rawInR := chunk :: w.rawInR }
-  if !w.compressed then { rdFeed w chunk with more := false } else
-  let w := { w with dsize := w.dsize + chunk.length }
-  let w :=
-    if !w.started && !chunk.isEmpty then
-      { w with started := true,
-               dst := if w.sniff && (chunk.headD 0).toNat % 16 != 8 then c.toRaw w.dst else w.dst }
-    else w
+/-- `DeflateBuffer.feed_data`: the first non-empty chunk of a `deflate` body chooses zlib / raw -/
+def sniffStart (w : World c) (chunk : Bytes) : World c :=
+  if !w.started && !chunk.isEmpty then
+    { w with started := true,
+             dst := if w.sniff && (chunk.headD 0).toNat % 16 != 8 then c.toRaw w.dst else w.dst }
+  else w
+
+/-- `DeflateBuffer.feed_data` after the sniff: one capped decompressor call, output to the reader -/
+def decodeFeed (w : World c) (chunk : Bytes) : World c :=
   match c.step w.dst chunk (maxLen w) with
   | none => { w with raised := some .contentEncoding }
   | some (st, out) =>
     let w := rdFeed { w with dst := st } out
     { w with more := c.avail st }
+
+/-- `payload.feed_data(chunk)` where payload is the `DeflateBuffer` (compressed) or the
+`StreamReader` itself; the return value lands in `more` -/
+def payFeed (w : World c) (chunk : Bytes) : World c :=
+  let w := { w with rawInR := chunk :: w.rawInR }
+  if !w.compressed then { rdFeed w chunk with more := false } else
+  decodeFeed (sniffStart { w with dsize := w.dsize + chunk.length } chunk) chunk
 
 /-- `payload.feed_eof()` (`DeflateBuffer.feed_eof`; `flush()` is taken to return `b""`) -/
 def payEof (w : World c) : World c :=
